@@ -185,6 +185,18 @@ fn keys_for<V: Fv>(seed: u64, nheavy: usize, nlight: usize, heavy: &mut Shards, 
             light.emit(json!({"ev":"sigrt","n":V::N,"siglen":V::SIG_LEN,"rt_equal":ok,"tag":"roundtrip-after-use","detail":detail}));
         }
     }
+    // keys from the other public constructor (operating-system entropy): the same facts, the seed is not known
+    for _ in 0..(if nheavy > 8 { 3 } else { 1 }) {
+        let (obs, kp) = observe_with::<V>([0u8; 32], "generate-os-entropy", || V::generate());
+        heavy.emit(obs.heavy);
+        light.emit(obs.light);
+        if let Some((sk, pk)) = kp {
+            let msg = b"signed with a key from generate()".to_vec();
+            if let Outcome::Ret(sig) = guarded(|| V::sign(&msg, &sk)) {
+                verify.emit(honest_event::<V>(&msg, &V::sig_to_bytes(&sig), &V::pk_to_bytes(&pk), "generate-key-signs"));
+            }
+        }
+    }
     // decode chains on one thread: decode A, decode B, re-encode A; decode the same bytes twice; a key decoded after a
     // failed decode -- each result must still be the byte-identical key (state leaking between decoder calls)
     {
